@@ -43,7 +43,7 @@ pub(crate) async fn http(port: u16, method: &str, path: &str, token: Option<&str
     stream.write_all(head.as_bytes()).await.ok()?;
     stream.write_all(b).await.ok()?;
     let mut buf = vec![];
-    tokio::time::timeout(Duration::from_secs(5), stream.read_to_end(&mut buf)).await.ok()?.ok()?;
+    tokio::time::timeout(Duration::from_secs(20), stream.read_to_end(&mut buf)).await.ok()?.ok()?;
     let cut = find(&buf, b"\r\n\r\n")?;
     let head = String::from_utf8_lossy(&buf[..cut]).to_string();
     let rest = &buf[cut + 4..];
